@@ -52,13 +52,60 @@ def resolve(body, path, pos, local):
     return ("unknown", local, neg)
 
 
+def _field_literal(body, path, i, t):
+    pl = t.discr.place
+    if len(pl.p) != 1 or not pl.p[0].startswith("."): return None
+    try: k = int(pl.p[0][1:].split("#")[0])
+    except ValueError: return None
+    kind, d, where = _reaching(body, path, i, pl.l)
+    if kind != "stmt" or d.rv != "agg" or d.agg != "tuple" or k >= len(d.ops): return None
+    v0, d0 = t.targets[0]
+    if d0 == t.otherwise or v0 not in (0, 1): return None
+    truth = (v0 == 1) if path[i + 1] == d0 else (v0 == 0)
+    o = d.ops[k]
+    if o.is_const: return Lit("const", o.cint(), truth, path[i])
+    if o.place is None: return None
+    if o.place.p: return Lit("place", o.place, truth, path[i])
+    pos, lim = where
+    kk, oo, neg = resolve_at(body, path, pos, lim, o.place.l)
+    if neg: truth = not truth
+    return Lit(kk, oo, truth, path[i])
+
+
+def resolve_at(body, path, pos, stmt_limit, local):
+    """like resolve(), but reads `local` as of statement `stmt_limit` of block path[pos]"""
+    neg = False; i = pos; lim = stmt_limit
+    for _ in range(20):
+        k, d, where = _reaching(body, path, i, local, lim)
+        if k is None: return ("arg" if 1 <= local <= body.argc else "unknown", local, neg)
+        if k == "call": return ("call", d, neg)
+        s = d
+        if s.rv in ("use", "cast") and s.ops:
+            o = s.ops[0]
+            if o.is_const: return ("const", o.cint(), neg)
+            if o.place is not None and not o.place.p:
+                local = o.place.l; i, lim = where; continue
+            return ("place", o.place, neg)
+        if s.rv == "un" and s.op == "Not" and s.ops and s.ops[0].place is not None and not s.ops[0].place.p:
+            neg = not neg; local = s.ops[0].place.l; i, lim = where; continue
+        if s.rv == "bin": return ("bin", s, neg)
+        if s.rv == "discr": return ("discr", s, neg)
+        return ("other", s, neg)
+    return ("unknown", local, neg)
+
+
 def literals(body, path):
     """Lit for every bool-like switch taken on the path (two-way switches on a whole local)"""
     out = []
     for i in range(len(path) - 1):
         t = body.blocks[path[i]].term
-        if t.kind != "switch" or t.discr is None or t.discr.place is None or t.discr.place.p: continue
+        if t.kind != "switch" or t.discr is None or t.discr.place is None: continue
         if len(t.targets) != 1: continue
+        if t.discr.place.p:
+            # `match (a, b, c)`: a bool field of a tuple built on this path stands for the operand that was put there
+            lit = _field_literal(body, path, i, t)
+            if lit is not None: out.append(lit)
+            continue
         v0, d0 = t.targets[0]
         nxt = path[i + 1]
         if d0 == t.otherwise: continue
